@@ -40,13 +40,11 @@ FileSchemas == JsonDeserialize("gen_schemas.json")
 PlainNum == TNum("float64", NoB, NoB)
 DOuter == Def("Outer", TStruct(<<FOptDef("inner", TRef("Child"), JObj(<<P("id", JInt(9))>>)), FOptDef("tag", PlainStr, JStr("t"))>>))
 NewLeaves == <<
-  DL("string-empty",           PlainStr, JStr(""), <<>>),
   DL("string-unicode",         PlainStr, JStr("@uni"), <<>>),
   DL("string-escapes",         PlainStr, JStr("@esc"), <<>>),
   DL("string-format-verbs",    PlainStr, JStr("100% {x} $y %s"), <<>>),
   DL("integer-beyond-int32",   PlainInt, JInt(Tok(7)), <<>>),
   DL("float-integral",         PlainNum, JNum(20), <<>>),
-  DL("float-zero",             PlainNum, JNum(0), <<>>),
   \* (no map-valued defaults: the property's quantifier lists bool, integer, float, string, enum member, list, struct with
   \*  partial overrides, union branch; all three parsers drop the default of a map-typed field - observed, not judged)
   DL("alias-struct-override",  TRef("AC"), JObj(<<P("name", JStr("x"))>>), <<Def("AC", TRef("Child")), DChild>>),
@@ -56,14 +54,32 @@ NewLeaves == <<
   DL("list-bool",              TArr(TBool), JArr(<<JBool(TRUE), JBool(FALSE)>>), <<>>),
   DL("list-enum",              TArr(TEnum(<<"a", "b">>)), JArr(<<JStr("b")>>), <<>>),
   DL("enum-alias-member",      TRef("E2"), JStr("b"), <<Def("E2", TRef("E")), DEnum>>),
-  DL("alias-integer",          TRef("A1"), JInt(3), <<Def("A1", TRef("A2")), Def("A2", PlainInt)>>),
   DL("alias-string",           TRef("A1"), JStr("ab"), <<Def("A1", PlainStr)>>),
-  DL("constant-alias-string",  TRef("K1"), NoJ, <<Def("K1", TConst(JStr("x")))>>),
   DL("enum-single-member",     TEnum(<<"only">>), JStr("only"), <<>>),
   DL("enum-reserved-member",   TEnum(<<"class", "None", "from">>), JStr("None"), <<>>),
   DL("constant-string-with-default",  TConst(JStr("x")), JStr("x"), <<>>),
   DL("constant-integer-with-default", TConst(JInt(2)), JInt(2), <<>>),
-  DL("union-branch-bool",      TUnion(<<PlainStr, TBool>>), JBool(TRUE), <<>>)
+  DL("union-branch-bool",      TUnion(<<PlainStr, TBool>>), JBool(TRUE), <<>>),
+  \* audit against notes/MUTATION_CLASSES.md (appended)
+  \* 7: defaults AT the boundary of the field's width, both signs
+  DL("integer-int64-max",      PlainInt, JInt(Tok(3)), <<>>),
+  DL("integer-int64-min",      PlainInt, JInt(0 - Tok(3)), <<>>),
+  DL("integer-int32-max",      TInt("int32", NoB, NoB), JInt(Tok(2)), <<>>),
+  DL("integer-int32-min",      TInt("int32", NoB, NoB), JInt(0 - Tok(2)), <<>>),
+  DL("integer-uint64-max",     TInt("uint64", NoB, NoB), JInt(Tok(4)), <<>>),
+  DL("integer-int8-min",       TInt("int8", NoB, NoB), JInt(-128), <<>>),
+  DL("float-2^53",             PlainNum, JNum(10 * Tok(8)), <<>>),
+  \* 4 / 8: the default is the LAST of three members, one of them starting with a numeral; a list of lists
+  DL("enum-member-last-of-3",  TEnum(<<"a", "1x", "zz">>), JStr("zz"), <<>>),
+  DL("list-list-integer",      TArr(TArr(PlainInt)), JArr(<<JArr(<<JInt(1), JInt(2)>>), JArr(<<JInt(3)>>)>>), <<>>),
+  \* 13: the default / constant sits behind alias chains of length 2 and 3, the aliases declared before AND after their target
+  DL("alias3-integer",         TRef("A1"), JInt(3), <<Def("A1", TRef("A2")), Def("A2", TRef("A3")), Def("A3", PlainInt)>>),
+  DL("alias2-integer-target-first", TRef("A1"), JInt(3), <<Def("A2", PlainInt), Def("A1", TRef("A2"))>>),
+  DL("alias3-struct-override", TRef("AC"), JObj(<<P("name", JStr("x"))>>), <<Def("AC", TRef("AC2")), Def("AC2", TRef("AC3")), Def("AC3", TRef("Child")), DChild>>),
+  DL("enum-alias2-member",     TRef("E3"), JStr("b"), <<Def("E3", TRef("E2")), Def("E2", TRef("E")), DEnum>>),
+  DL("constant-alias2-string", TRef("K1"), NoJ, <<Def("K1", TRef("K2")), Def("K2", TConst(JStr("x")))>>),
+  DL("constant-alias3-string", TRef("K1"), NoJ, <<Def("K3", TConst(JStr("x"))), Def("K2", TRef("K3")), Def("K1", TRef("K2"))>>),
+  DL("constant-alias2-integer", TRef("K1"), NoJ, <<Def("K1", TRef("K2")), Def("K2", TConst(JInt(2)))>>)
 >>
 
 (* -------------------------------- positions ------------------------------ *)
@@ -127,7 +143,8 @@ DeepFixed == <<
     Def("Root", TStruct(<<
       F("mam", TMap(TArr(TMap(TRef("Item"))))), FOpt("aam", TArr(TArr(TMap(PlainStr)))), FOpt("mu", TMap(TDUnion("kind", <<"Zebra", "Apple">>))),
       F("au", TArr(TUnion(<<PlainStr, PlainInt>>))), FOpt("amu", TArr(TMap(TDUnion("kind", <<"Zebra", "Apple">>)))),
-      FOpt("ama", TArr(TMap(TArr(PlainInt)))), FOpt("mn", TMap(TNullable(TRef("Item")))), FOpt("mm", TMap(TMap(TRef("Item"))))>>)),
+      FOpt("ama", TArr(TMap(TArr(PlainInt)))), FOpt("mn", TMap(TNullable(TRef("Item")))), FOpt("mm", TMap(TMap(TRef("Item")))),
+      FOpt("mmm", TMap(TMap(TMap(TRef("Item"))))), FOpt("aaa", TArr(TArr(TArr(TRef("Item"))))), FOpt("aas", TArr(TArr(TArr(PlainStr))))>>)),
     Def("Item", TStruct(<<F("n", PlainInt), FOpt("tags", TArr(PlainStr)), FOpt("attrs", TMap(PlainStr)), FOptNull("note", PlainStr)>>)),
     UZebra, UApple>>),
   \* four levels of optional nesting closing a cycle
